@@ -210,6 +210,18 @@ def o_frame(root, pre, op, res, extra):
                     if intro.pr(x) != txt:
                         out.append((f'frame:item-text:{kind}:{type(pm).__name__}.{name}', 'an untouched item changed its text'))
                         break
+    # drop_many removes exactly the items its indexes designate (negative ones counted from the end, repeats once)
+    if kind == 'rep-dropmany' and pre.item_texts is not None:
+        fname = next((f for raw_, (f, _) in intro.api_props(type(pm))['rep'].items() if raw_ == op['attr']), None) if not isinstance(pm, base.RawTokenModel) else None
+        before_items = pre.item_texts.get(fname) if fname else None
+        if before_items is not None:
+            n_ = len(before_items)
+            want_gone = {before_items[i + n_ if i < 0 else i][0] for i in op['args'][0]['v'] if -n_ <= i < n_}
+            now_ids = {id(x) for x in pm.__dict__[fname].items}
+            gone = {i for i, _ in before_items if i not in now_ids}
+            if gone != want_gone:
+                out.append(('frame:dropmany-removed-other-items', f'drop_many({op["args"][0]["v"]}) on {n_} items removed {len(gone)} item(s), '
+                            f'{len(gone ^ want_gone)} of them not the designated ones / designated ones left behind'))
     # a key designates the FIRST meta item carrying it: that one, and no other, is removed / replaced / updated
     if kind in ('meta-delkey', 'meta-popkey', 'meta-setkey') and pre.meta_items is not None and hasattr(pm, 'raw_meta'):
         key = op['idx'] if 'idx' in op else op['args'][0]['v']
